@@ -104,6 +104,10 @@ Goal exists cfg pd text, dom_C10 CPY pd = true /\ known_C10 CPY [] pd = ["C10-py
     contains_sub (lit "G = GV") text = true.
 Proof. exact Props.C10.C10_python_generic_enum_arg_refuted. Qed.
 Print Assumptions Props.C10.C10_python_generic_enum_arg_refuted.
+Goal exists cfg pd text, dom_C10 CPY pd = true /\ known_C10 CPY [] pd = ["C10-python-digit-name"%string] /\
+    py_generate uc_exec cfg pd = Ok text /\ contains_sub (lit "    1_A = ""1a""") text = true.
+Proof. exact Props.C10.C10_python_digit_name_refuted. Qed.
+Print Assumptions Props.C10.C10_python_digit_name_refuted.
 Goal exists cfg pd text, known_C10 CPY [] pd = ["C10-python-empty-union"%string] /\
     py_generate uc_exec cfg pd = Ok text /\ contains_sub (lit "E = Union[]") text = true.
 Proof. exact Props.C10.C10_python_empty_union_refuted. Qed.
